@@ -55,7 +55,7 @@ def gen(rng, tier, i):
             nt += 1; t = 't%d' % nt
             op = 'uload %s %s' % (rng.choice(FILES), t); tags.append(t)
         elif r < 0.37:
-            op = 'ucall %s' % rng.choice(FILES)
+            op = 'ucall %s %s' % (rng.choice(FILES), rng.choice(('co', 'co', 'aco', 'move', 'tellroom', 'filter', 'mapstr', 'message', 'find1')))
         elif r < 0.42:
             nt += 1; t = 't%d' % nt
             op = 'umclone %s %s %d' % (rng.choice(FILES), t, rng.randint(0, 1)); tags.append(t); actor = 'u0'
